@@ -13,6 +13,7 @@ import (
 	"encoding/json"
 	"fmt"
 	"math/big"
+	"regexp"
 	"strings"
 	"testing"
 
@@ -263,7 +264,11 @@ func (h *handle) resume() (vals []any, errText string, budget bool) {
 
 func runKeep(code *gojq.Code, input, v any, limit int) (vals []any, errText string, budget bool, msg string, h *handle) {
 	ctx := run.NewCountCtx(steps)
-	it := code.RunWithContext(ctx, input, v)
+	// the caller's own argument slice: values are bound when the run starts,
+	// what the caller does with its slice afterwards is its own business
+	callerArgs := []any{v}
+	it := code.RunWithContext(ctx, input, callerArgs...)
+	callerArgs[0] = "CLOBBERED-BY-THE-CALLER-AFTER-RUN"
 	h = &handle{it: it, ctx: ctx}
 	defer func() { h.emitted = len(vals) }()
 	var fz []frozen
@@ -290,6 +295,43 @@ func runKeep(code *gojq.Code, input, v any, limit int) (vals []any, errText stri
 				return vals, "", true, "", h
 			}
 			errText = e.Error()
+			// errors are emitted values too: kept by the caller, they must read
+			// the same after the iterator has been advanced further (it can be:
+			// an error does not end it)
+			type frozenErr struct {
+				e    error
+				text string
+			}
+			kept := []frozenErr{{e, errText}}
+			if knownErrRef && !replaying && updateLike.MatchString(queryText) {
+				// known finding C05.F1 (structural class: the program contains an
+				// update form): the error refers to the working copy of the update
+				rec.Excluded("C05/error-references-updated-container")
+				break
+			}
+			for k := 0; k < 6; k++ {
+				y, ok := it.Next()
+				if !ok {
+					h.finished = true
+					break
+				}
+				if ctx.Fired() {
+					break
+				}
+				for n, f := range kept {
+					if t := f.e.Error(); t != f.text {
+						return vals, errText, false, fmt.Sprintf("error %d emitted as %q reads %q after the iterator advanced %d more step(s)", n, f.text, t, k+1), h
+					}
+				}
+				if e2, isErr := y.(error); isErr {
+					kept = append(kept, frozenErr{e2, e2.Error()})
+				}
+			}
+			for n, f := range kept {
+				if t := f.e.Error(); t != f.text {
+					return vals, errText, false, fmt.Sprintf("error %d emitted as %q reads %q after the iterator was advanced further", n, f.text, t), h
+				}
+			}
 			break
 		}
 		if m := check(fmt.Sprintf("while the iterator advanced to output %d", i)); m != "" {
@@ -310,7 +352,14 @@ func runKeep(code *gojq.Code, input, v any, limit int) (vals []any, errText stri
 	return vals, errText, false, "", h
 }
 
+var (
+	knownErrRef, replaying bool
+	queryText              string // the program of the case being judged (for structural classes)
+	updateLike             = regexp.MustCompile(`\|=|[-+*/%]=|//=|map_values|walk\(|_modify|with_entries|to_entries`)
+)
+
 func check(c isoCase) (msg, discard string) {
+	queryText = c.Query
 	q, err := gojq.Parse(c.Query)
 	if err != nil {
 		return "", "parse-error"
@@ -546,6 +595,8 @@ func replayCase(sub string, raw json.RawMessage) string {
 	if err := json.Unmarshal(raw, &c); err != nil {
 		return "bad replay: " + err.Error()
 	}
+	replaying = true // class exclusions do not apply to replayed cases
+	defer func() { replaying = false }()
 	m, _ := check(c)
 	return m
 }
@@ -641,6 +692,7 @@ func TestC05(t *testing.T) {
 	if model, err = refjq.New(); err != nil {
 		t.Fatal(err)
 	}
+	knownErrRef = rec.KnownClass("C05/error-references-updated-container")
 	rec.Replays(replayCase)
 	if rec.ReplayPath() != "" {
 		return
